@@ -44,7 +44,11 @@ def main():
         return mod.replay(spec, yes, no)
     from symtrace import env as ENV
     from symtrace.concrete import run_concrete, flat, lincomb_of, ev_concrete
-    env = ENV.load(spec.get("backend", "snarkjs"), symbolic=False)
+    if spec.get("backend") == "none":
+        env = ENV.Env(backend_name="none", symbolic=False, P=None, rec=None, mods=[], rt=None, bo=None, fx=None, br=None,
+                      ar=None, pk=None, la=None, be=None, gm=None, am=None, created=[], track=False)
+    else:
+        env = ENV.load(spec.get("backend", "snarkjs"), symbolic=False)
     P = env.P
     if "cfg" not in spec:
         spec["cfg"] = spec["runs"][0]["cfg"]
